@@ -16,6 +16,8 @@ def literal(tok):
         return Uri(p.quoted('`', ZR.URI_ESC))
     if tok.startswith('@'):
         return Ref(tok[1:])
+    if tok in ('INF', '-INF', 'NaN'):
+        return float(tok)           # numbers are spelled as in ZINC: positive / negative infinity, not-a-number
     return float(tok.replace('_', ''))
 
 
@@ -23,6 +25,8 @@ def compare(op, v, lit):
     import operator
     f = {'==': operator.eq, '!=': operator.ne, '<': operator.lt, '<=': operator.le, '>': operator.gt, '>=': operator.ge}[op]
     num = lambda x: isinstance(x, (int, float)) and not isinstance(x, bool)
+    if isinstance(v, bool) != isinstance(lit, bool):
+        return op == '!='          # Bool and any other kind: different values, never ordered (Python would take True for 1)
     if op in ('<', '<=', '>', '>='):
         if not ((num(v) and num(lit)) or (isinstance(v, str) and isinstance(lit, str) and type(v) is type(lit))):
             return False
@@ -53,12 +57,14 @@ def rows_catalogue():
         {'id': 'r6', 'a': False, 'b': 0.0, 'c': '', 's': 'a"b', 'n': True},
         {'id': 'r7', 's': 'two  spaces', 'dis': ' lead'},
         {'id': 'r8', 's': 'two spaces', 'dis': 'lead'},
+        {'id': 'r9', 'n': float('inf'), 's': 'INF'}, {'id': 'r10', 'n': float('-inf'), 's': '-INF'}, {'id': 'r11', 'n': float('nan'), 's': 'NaN'},
     ]
 
 
 ATOMS = ['a', 'b', 'c', 'notes', 'not a', 'not notes', 'not es', 'order', 'android', 'n == 5', 'n != 5', 'n < 5', 'n <= 5', 'n > 5', 'n >= 5', 'n < 3kW' if False else 'n >= 0',
          's == "abc"', 's != "abc"', 's < "abd"', 's == "a\\"b"', 's == ""', 'siteRef->a', 'not siteRef->a', 'siteRef->n == 5', 'siteRef->siteRef->n == 5', 'siteRef->n > 1',
-         'siteRef == @r1', 'u == `http://x`', 'd->x == 1', 'n == true', 'zzz', 'not zzz', 'zzz == 1', 'zzz != 1', 'zzz < 1', 's == "two  spaces"', 's != "two  spaces"', 'dis == " lead"', 's == "two spaces"']
+         'siteRef == @r1', 'u == `http://x`', 'd->x == 1', 'n == true', 'zzz', 'not zzz', 'zzz == 1', 'zzz != 1', 'zzz < 1', 's == "two  spaces"', 's != "two  spaces"', 'dis == " lead"', 's == "two spaces"',
+         'zzz != true', 'zzz == true', 'zzz != false', 'zzz < true', 'zzz != "x"', 'zzz != @r1', 'n != true', 'a != 1', 'a == false', 'b == 0', 'b != 0', 'n == INF', 'n != INF', 'n < INF', 'n > -INF', 'n == -INF', 'n <= -INF', 's == INF', 'n == NaN', 'n != NaN', 's == "INF"']
 
 
 def render(expr, rnd):
@@ -185,8 +191,25 @@ def replay(inp):
         g = mk_grid(rows)
         got = [str(r['id']) for r in g.filter('siteRef->geoCity == "Chicago"')]
         return {'reproduced': got != ['@e1'], 'detail': 'rows whose id is a Ref: siteRef->geoCity selects %r' % (got,)}
+    if inp.get('kind') == 'compare':
+        # a refuted clause of _compare's contract for one operator: the operator against literals of every kind on rows where the tag is absent /
+        # of another kind, judged by the reference semantics
+        op = inp.get('op', '==')
+        bad = []
+        for lit in ('true', 'false', '1', '"abc"', '`http://x`', '@r1', '2020-01-01', 'INF'):
+            for tag in (['zzz'] if inp.get('absent') else ['zzz', 'n', 's', 'a', 'siteRef']):
+                r = check('%s %s %s' % (tag, op, lit), rows_catalogue(), 0)
+                if r:
+                    bad.append(r)
+        return {'reproduced': bool(bad), 'detail': bad[:3]}
+    import json as _json
+    import os as _os
+    import re as _re
+    kf = _json.load(open(_os.path.join(_os.path.dirname(_os.path.dirname(_os.path.abspath(__file__))), 'known_findings.json')))
+    pats = [f.get('failure_id') for f in kf.get('findings', []) if f.get('property') == 'C11' and f.get('failure_id')]
     out = bounded('quick', 0)
-    return {'reproduced': bool(out['failures']), 'detail': [f['what'] for f in out['failures'][:3]]}
+    fl = [f for f in out['failures'] if not any(_re.search(p_, f.get('id', '')) for p_ in pats)]        # a listed finding is not a reproduction of something else
+    return {'reproduced': bool(fl), 'detail': [f['what'] for f in fl[:3]]}
 
 
 _bounded_inner = bounded
